@@ -8,6 +8,7 @@ CONSTANTS
   MaxEof = 1
   SlowSet = {"C"}
   CfgWrite = FALSE
+  NCl = 1
 INVARIANT MonitorQuiet
 INVARIANT OneReceivePath
 INVARIANT LockDiscipline
